@@ -29,13 +29,11 @@ def run_one(job):
     name, patch, prop, base, props = job
     d = tempfile.mkdtemp(prefix='hxsa_seed_')
     try:
-        subprocess.check_call(['cp', '-r', os.path.join(base, 'hotxlfp'), d])
-        for extra in ('SUPPORTED_FORMULAS.md', 'README.md'):
-            if os.path.exists(os.path.join(base, extra)):
-                shutil.copy(os.path.join(base, extra), d)
-        r = subprocess.run(['patch', '-p1', '-s', '-d', d, '-i', patch], capture_output=True, text=True)
-        if r.returncode != 0:
-            return name, prop, None, 'patch failed: ' + r.stdout[-200:] + r.stderr[-200:]
+        sys.path.insert(0, HERE)
+        from hxsa import variants
+        variants.copy_tree(base, d)
+        if not variants.apply_patch(d, patch):
+            return name, prop, None, 'patch failed'
         # stale generated parse table must not be trusted by accident: keep it (that is the real situation after an edit)
         results = {}
         for p in props:
